@@ -1,2 +1,8 @@
 import ParryModel.C14.Theorems
 #print axioms C14.tuc3_true_sound
+#print axioms C14.ballBall3_spec
+#print axioms C14.convexBall3_spec
+#print axioms C14.good_swap3
+#print axioms C14.halfspacePfm3_spec
+#print axioms C14.convexBallShapes3_good
+#print axioms C14.halfspaceDispatch3_good
